@@ -222,7 +222,7 @@ def server_directed(rng):
 
 
 def gen(rng, tier):
-    n = {"quick": 700, "thorough": 20000, "search": 12000}[tier]
+    n = {"quick": 900, "thorough": 40000, "search": 12000}[tier]
     ln = {"quick": 28, "thorough": 45, "search": 36}[tier]
     for i, ops in enumerate(client_directed(rng)):
         yield Case("s_kaclient", ops, "client-directed-%d" % i)
